@@ -69,7 +69,6 @@ Definition WInv (w : world) : Prop := forall k u, get w k = Some u -> msgs_below
 (** ---- finding classes ---------------------------------------------------------------- *)
 
 Inductive c01class :=
-| CSingle554        (* ParseMessage/ValidateMessage failure: ONE 554 for n <> 1 recipients *)
 | CDupLastResult    (* a position is answered from the result of a LATER attempt for the
                        same recipient string (map keyed by recipient) and the two differ *)
 | CNoBoundary.      (* root multipart/* without boundary: zero part rows, linked, 250 *)
@@ -82,7 +81,7 @@ Definition mismatch (m : rmap) (a : attempt) : bool :=
 
 Definition classify (w : world) (folder : str) (rs : list str) (p : parsed) (clk : nat -> Z)
   : option c01class :=
-  if negb (p_ok p) then (if Nat.eqb (length rs) 1 then None else Some CSingle554)
+  if negb (p_ok p) then None          (* one 554 per recipient since raven aeac4b2 *)
   else
     let '(_, atts) := deliver_all w folder rs p clk 0 in
     if existsb (mismatch (results_of atts)) atts then Some CDupLastResult
